@@ -2,14 +2,14 @@
    [sdir_lex s]: what the parser guarantees of a syntax-level directive -- years 0..9999, account
    segments and commodities non-empty runs of letters and digits, descriptions valid UTF-8 without
    a double quote, at least one booking / balance, and for an @accrue annotation an account of that
-   shape and period ends within years 0..9999.  The model layer keeps it: every model directive of
+   shape and a window between years 0..9999.  The model layer keeps it: every model directive of
    a journal of such directives satisfies PrintLex.mdir_lex ([parse_lex]; accrual expansions get
    the description suffix " (accrual i/n)" and the period ends as dates), and its accounts are
    what C04/C05 call syntactic ([parse_syntactic]).  Hence [input_lex ss -> PrintText.lex_ok ss]. *)
 From Coq Require Import ZArith List Bool Lia.
 From Knut Require Import Model.Bytes Model.Utf8 Model.UnicodeTables Model.Scanner Model.Parser.
 From Knut Require Import Model.Str Model.Dec Model.Date Model.Account Model.Ledger Model.Journal Model.JPrinter.
-From Knut Require Import Spec.WellformedSpec.
+From Knut Require Import Spec.WellformedSpec Spec.DateSpec Proofs.CalendarSweep Proofs.CalendarProofs Proofs.DateProofs.
 From Knut Require Import Proofs.DecStringProofs Proofs.ScannerProofs Proofs.RoundTripBase Proofs.RoundTripLeaf
      Proofs.OrderCmd Proofs.PrintProofs Proofs.PrintRequant Proofs.PrintNormal Proofs.PrintSem Proofs.PrintWeave Proofs.PrintLex Proofs.PrintText.
 Import ListNotations.
@@ -19,9 +19,43 @@ Open Scope Z_scope.
 Definition acc_lex0 (a : Account.account) : Prop := a <> [] /\ Forall seg_lex a.
 
 Definition accrual_lex (ac : Ledger.accrual) : Prop :=
-  acc_lex0 (ac_account ac) /\
-  forall part, new_partition (mkPeriod (ac_start ac) (ac_end ac)) (ac_interval ac) 0 = POk part ->
-               Forall date_printable (end_dates part).
+  acc_lex0 (ac_account ac) /\ date_printable (ac_start ac) /\ date_printable (ac_end ac).
+
+(* the period ends of a window lie in the window, hence in years 0..9999 if its ends do *)
+Lemma year_mono d1 d2 : d1 <= d2 -> year_of d1 <= year_of d2.
+Proof.
+  intros H. destruct (civil_le_mono d1 d2 H) as [E|L].
+  - unfold year_of. rewrite E. lia.
+  - rewrite (year_month_day d1), (year_month_day d2) in L. unfold lex_lt in L. lia.
+Qed.
+
+Lemma tiles_end_lower s e ps : tiles s e ps -> Forall (fun p => s <= p_end p) ps.
+Proof.
+  revert s. induction ps as [|p ps IH]; intros s H; [constructor|].
+  cbn [tiles] in H. destruct H as (Hs & Hpe & Hrest). constructor; [lia|].
+  destruct ps as [|q ps]; [constructor|]. specialize (IH _ Hrest).
+  eapply Forall_impl; [|exact IH]. cbv beta. intros x Hx. lia.
+Qed.
+
+Lemma accrual_dates s e iv part :
+  date_printable s -> date_printable e -> new_partition (mkPeriod s e) iv 0 = POk part ->
+  Forall date_printable (end_dates part).
+Proof.
+  intros Hs He H. destruct (Z.eq_dec s 0) as [->|Hnz].
+  { unfold new_partition in H. cbn [p_start] in H. discriminate. }
+  assert (Hcase : iv = Once \/ iv <> Once) by (destruct iv; (now left) || (right; discriminate)).
+  destruct Hcase as [->|Hiv].
+  - rewrite (partition_once s e 0 Hnz) in H. inversion H. subst part. unfold end_dates. cbn [periods map p_end].
+    constructor; [exact He|constructor].
+  - destruct (partition_unlimited s e iv Hiv Hnz) as (ps & Hp & Hinv & Htiles & _).
+    rewrite Hp in H. inversion H. subst part. unfold end_dates. cbn [periods].
+    destruct (Z_lt_ge_dec e s) as [L|G]; [rewrite (Hinv L); constructor|].
+    specialize (Htiles ltac:(lia)). destruct (tiles_end_ge s e ps Htiles) as (Hup & _).
+    pose proof (tiles_end_lower s e ps Htiles) as Hlo.
+    apply Forall_forall. intros d Hd. apply in_map_iff in Hd. destruct Hd as (p & <- & Hin).
+    rewrite Forall_forall in Hup, Hlo. specialize (Hup p Hin). specialize (Hlo p Hin). cbv beta in *.
+    unfold date_printable in *. pose proof (year_mono s (p_end p) Hlo). pose proof (year_mono (p_end p) e Hup). lia.
+Qed.
 
 Definition booking_lex (b : Ledger.booking) : Prop := acc_lex0 (b_credit b) /\ acc_lex0 (b_debit b) /\ com_lex (b_com b).
 
@@ -144,7 +178,7 @@ Lemma expand_posting_lex t ac p l :
   accrual_lex ac -> valid_account (ac_account ac) = true -> acc_lex (p_acc p) -> com_lex (p_com p) ->
   expand_posting t ac p = MOk l -> Forall (fun t => mdir_lex (DTxn t)) l.
 Proof.
-  intros Hd Hq Ht (La0 & Hends) Hv Lp Lc. pose proof (acc_lex_of _ La0 Hv) as La.
+  intros Hd Hq Ht (La0 & Hs0 & He0) Hv Lp Lc. pose proof (acc_lex_of _ La0 Hv) as La.
   unfold expand_posting, expand_posting_gen.
   set (r1 := if rebook_fixed (p_acc p) then _ else _).
   assert (Hr1 : Forall (fun t => mdir_lex (DTxn t)) r1).
@@ -156,7 +190,7 @@ Proof.
   destruct (new_partition _ _ _) as [part| |] eqn:Ep; try discriminate.
   destruct (quo_rem _ _ _) as [[amount rem]|]; try discriminate.
   intros H. inversion H. apply Forall_app. split; [exact Hr1|].
-  apply accrual_parts_lex; try assumption; try lia. exact (Hends part eq_refl).
+  apply accrual_parts_lex; try assumption; try lia. exact (accrual_dates _ _ _ part Hs0 He0 Ep).
 Qed.
 
 Lemma expand_postings_lex t ac ps l :
@@ -300,8 +334,7 @@ Proof.
   - split; [date_tac|acc0_tac].
   - split; [date_tac|]. split; [ascii_cls|]. split; [discriminate|].
     split; [forall_tac booking_tac|]. split; [forall_tac seg_tac|].
-    split; [acc0_tac|]. intros part H. vm_compute in H. inversion H. subst part.
-    unfold end_dates. cbn [periods map p_end]. forall_tac date_tac.
+    split; [acc0_tac|]. split; date_tac.
   - split; [date_tac|]. split; [ascii_cls|]. split; [discriminate|].
     split; [forall_tac booking_tac|]. split; [apply Forall_nil|exact I].
   - split; [date_tac|]. split; [discriminate|]. forall_tac bal_tac.
